@@ -1,12 +1,22 @@
 package main
 
 import (
+	"encoding/base64"
 	"encoding/json"
 	"fmt"
-	"google.golang.org/protobuf/reflect/protoreflect"
+	"os"
 	"path/filepath"
 	"sort"
+	"strings"
 	"time"
+	"unicode/utf8"
+
+	"google.golang.org/protobuf/encoding/protojson"
+	"google.golang.org/protobuf/proto"
+	"google.golang.org/protobuf/reflect/protoreflect"
+
+	"verifharness/drv"
+	"verifharness/val"
 
 	"verifharness/chk"
 	"verifharness/plug"
@@ -146,6 +156,9 @@ func wireCheck(c *chk.Ctx, family string, expandKinds bool, random func(*chk.Ctx
 		c.Done()
 	}
 	judgeWire(c, family, suite, out)
+	if family == "C02" || family == "C09" {
+		tsWire(c, set, family, suite)
+	}
 	switch family {
 	case "C10":
 		clientSideCheck(c, `{"C10"}`, realErrorResponses(out))
@@ -220,4 +233,149 @@ func stringsIndex(s, sub string) int {
 
 func wireParseScalar(fd protoreflect.FieldDescriptor, s string) (protoreflect.Value, error) {
 	return wire.ParseScalar(fd, s)
+}
+
+// tsWire runs the JSON cases of the suite against the emitted TypeScript server (C02 and C09 anchor it
+// too) and validates the handler view and the responses with the same Trace_Wire specification.
+func tsWire(c *chk.Ctx, set *plug.Set, family string, suite *wire.Suite) {
+	ts := suite.TSView()
+	if len(ts.Cases) == 0 {
+		return
+	}
+	res := set.Run("ts-server", suite.Built.Request("", nil), plug.RunOpts{})
+	if !res.OK() {
+		rp := c.WriteReplay(map[string]any{"property": c.ID, "stage": "generate", "plugin": "ts-server", "error": res.Error})
+		c.Violation(rp, "ts-server refused the family schema: "+firstN(res.Error, 300))
+		return
+	}
+	dir, err := os.MkdirTemp("", "vh-tswire-*")
+	if err != nil {
+		c.Broken("%v", err)
+	}
+	defer os.RemoveAll(dir)
+	mods := map[string]string{} // go package dir ("gen/w0") -> module path
+	for _, f := range res.Files {
+		p := filepath.Join(dir, f.Name)
+		_ = os.MkdirAll(filepath.Dir(p), 0o755)
+		_ = os.WriteFile(p, []byte(f.Content), 0o644)
+		mods["gen/"+filepath.Base(filepath.Dir(f.Name))] = p
+	}
+	svcs := map[string][]string{}
+	for _, sh := range ts.Shapes {
+		svcs[ts.PkgOf(sh)] = append(svcs[ts.PkgOf(sh)], sh.Svc)
+	}
+	var ops []map[string]any
+	for _, cs := range ts.Cases {
+		sh := ts.ShapeOf(cs)
+		outJS, _ := protojson.MarshalOptions{EmitUnpopulated: true}.Marshal(ts.OutMsg(sh))
+		op := map[string]any{"op": "tsserve", "case": cs.ID, "call": 1, "module": mods[ts.PkgOf(sh)], "service": sh.Svc, "services": svcs[ts.PkgOf(sh)],
+			"verb": sh.Rpc.Verb, "url": cs.C.URL, "bodyB64": base64.StdEncoding.EncodeToString(cs.C.Body), "noBody": cs.C.NoBody,
+			"handler": map[string]any{"kind": "ok", "value": json.RawMessage(outJS)}}
+		var hs, hb [][2]string
+		for _, h := range cs.C.Headers {
+			if utf8.ValidString(h[1]) {
+				hs = append(hs, h)
+			} else {
+				hb = append(hb, [2]string{h[0], base64.StdEncoding.EncodeToString([]byte(h[1]))})
+			}
+		}
+		op["headers"], op["headersB64"] = hs, hb
+		ops = append(ops, op)
+	}
+	evs := runTS(c, dir, ops)
+	out := &wire.Outcome{Events: map[int][]drv.Event{}}
+	seq := map[int]int{}
+	for _, e := range evs {
+		idf, ok := e["case"].(float64)
+		if !ok {
+			continue
+		}
+		id := int(idf)
+		seq[id]++
+		switch e["event"] {
+		case "TsLoadError", "DriverError":
+			c.Broken("ts driver: %v", e["detail"])
+		case "TsHandlerSaw":
+			var cs *wire.Case
+			for _, x := range ts.Cases {
+				if x.ID == id {
+					cs = x
+				}
+			}
+			sh := ts.ShapeOf(cs)
+			m, _ := val.New(ts.Files, sh.In)
+			typ := sh.In
+			argObj, isObj := e["arg"].(map[string]any)
+			if !isObj {
+				typ = "?handler argument is not an object"
+			}
+			cp := map[string]any{}
+			for k, v := range argObj {
+				cp[k] = v
+			}
+			// path variables arrive as raw decoded segments: read with the field's type (representation is C07's)
+			for _, pv := range sh.Rpc.PathVars {
+				fd := m.Descriptor().Fields().ByName(protoreflect.Name(pv))
+				if fd == nil {
+					continue
+				}
+				jn := fd.JSONName()
+				if sv, ok := cp[jn].(string); ok && fd.Kind() != protoreflect.StringKind {
+					delete(cp, jn)
+					if v, err := wireParseScalar(fd, sv); err == nil {
+						m.Set(fd, v)
+					} // else: not a value of the field; it stays at its zero value (judged by the specification)
+				}
+			}
+			b, _ := json.Marshal(cp)
+			rest, _ := val.New(ts.Files, sh.In)
+			if err := protojson.Unmarshal(b, rest); err != nil {
+				// some member is not a value of its field (NaN -> null, "12x" for an integer ...): read the
+				// members one by one, leaving the unreadable ones at their zero value (whether that is
+				// admissible is the specification's business)
+				rest, _ = val.New(ts.Files, sh.In)
+				readable := 0
+				for k, v := range cp {
+					one, _ := json.Marshal(map[string]any{k: v})
+					tmp, _ := val.New(ts.Files, sh.In)
+					if protojson.Unmarshal(one, tmp) == nil {
+						proto.Merge(rest, tmp)
+						readable++
+					}
+				}
+				_ = readable
+			}
+			proto.Merge(rest, m)
+			m = rest
+			rpc := fmt.Sprint(e["rpc"])
+			if strings.EqualFold(rpc, sh.Meth) {
+				rpc = sh.Meth
+			}
+			out.Events[id] = append(out.Events[id], drv.Event{"event": "HandlerSaw", "case": idf, "call": 1.0, "seq": float64(seq[id]), "svc": sh.Svc, "rpc": rpc,
+				"type": typ, "valB64": base64.StdEncoding.EncodeToString(val.Det(m))})
+		case "Resp":
+			out.Events[id] = append(out.Events[id], drv.Event{"event": "Resp", "case": idf, "call": 1.0, "seq": float64(seq[id]), "status": e["status"], "ctype": e["ctype"],
+				"bodyB64": e["bodyB64"], "headers": e["headers"]})
+		case "TsNoRoute":
+			out.Events[id] = append(out.Events[id], drv.Event{"event": "Resp", "case": idf, "call": 1.0, "seq": float64(seq[id]), "status": 404.0, "ctype": "text/plain",
+				"bodyB64": "", "headers": []any{}})
+		case "TsServerThrow":
+			out.Events[id] = append(out.Events[id], drv.Event{"event": "ServerPanic", "case": idf, "call": 1.0, "seq": float64(seq[id]), "detail": e["detail"]})
+		case "Timeout":
+			out.Events[id] = append(out.Events[id], drv.Event{"event": "Timeout", "case": idf, "call": 1.0, "seq": float64(seq[id])})
+		}
+	}
+	dev := c.Dev()
+	v, err := ts.Validate(out, dev, 25)
+	if err != nil {
+		c.Broken("%v", err)
+	}
+	c.AddInt("traces_validated_against_impl", int64(len(v.Accepted)))
+	c.Set("ts_server_cases", len(ts.Cases))
+	c.Infof("TS server: trace validation of %d JSON cases: %d accepted, %d rejected", len(ts.Cases), len(v.Accepted), len(v.Rejected))
+	for _, bad := range v.Rejected {
+		rp := c.WriteReplay(wireReplay{Property: c.ID, Family: family + " (ts-server)", Dev: dev, Abstract: bad.A, Concrete: bad.C, Origin: bad.Origin,
+			Note: bad.Note, Observed: eventsOf(out, bad.ID), Rejected: v.RejectedLine[bad.ID], Seed: c.Seed})
+		c.Violation(rp, fmt.Sprintf("TS server: %s %s [%s] rejected by Trace_Wire at: %s", bad.A.Rpc.Verb, bad.C.URL, bad.Note, firstN(v.RejectedLine[bad.ID], 400)))
+	}
 }
